@@ -72,7 +72,21 @@ type Value struct {
 	Fee       uint64 `json:"fee,omitempty"` // 0 zero address, 1 non-zero, 2 payload missing
 	CV        uint64 `json:"cv,omitempty"`
 	EV        uint64 `json:"ev,omitempty"`
+	// proposals: the consensus / execution value in wei is CVHi*2^64+CV / EVHi*2^64+EV (a block
+	// worth 2^64 wei, about 18.45 ETH, or more does not fit a uint64)
+	CVHi uint64 `json:"cv_hi,omitempty"`
+	EVHi uint64 `json:"ev_hi,omitempty"`
 }
+
+// wei is hi*2^64+lo.
+func wei(hi, lo uint64) *big.Int {
+	x := new(big.Int).SetUint64(hi)
+	x.Lsh(x, 64)
+	return x.Add(x, new(big.Int).SetUint64(lo))
+}
+
+// bigN prints a natural number of any size as a Gallina N.
+func bigN(x *big.Int) string { return x.String() + "%N" }
 
 type Prov struct {
 	T    int64  `json:"t"`             // latency in ns of fake time
@@ -248,8 +262,8 @@ func buildProp(in *Input, vid int) *api.VersionedProposal {
 	p := &api.VersionedProposal{
 		Version:        spec.DataVersion(v.Version),
 		Blinded:        v.Blinded,
-		ConsensusValue: new(big.Int).SetUint64(v.CV),
-		ExecutionValue: new(big.Int).SetUint64(v.EV),
+		ConsensusValue: wei(v.CVHi, v.CV),
+		ExecutionValue: wei(v.EVHi, v.EV),
 	}
 	present := v.Fee != 2
 	fee := feeAddr(v.Fee)
@@ -885,7 +899,7 @@ func rawTerm(in *Input, vid int) string {
 	case "agg":
 		return App("RAgg", Bool(v.Nil), N(v.Set), N(v.Len))
 	case "prop":
-		return App("RProp", N(v.Version), N(v.Fee), N(v.CV), N(v.EV))
+		return App("RProp", N(v.Version), N(v.Fee), bigN(wei(v.CVHi, v.CV)), bigN(wei(v.EVHi, v.EV)))
 	case "contrib":
 		return App("RContrib", Bool(v.Nil), N(v.Set))
 	case "root":
@@ -1056,6 +1070,78 @@ func genValue(r *Rand, in *Input, valid bool) Value {
 	}
 }
 
+// wideWei draws a block value in wei from the whole legal range: whole ETH amounts on both sides of
+// 2^64 wei (about 18.45 ETH), the neighbourhoods of 2^63, 2^64 and of every power of two up to 2^80
+// (where neighbouring integers share a float64), arbitrary values up to 2^80, values at 2^64 or
+// above whose low 64 bits are small or large, and neighbours of a value already in the pool.
+func wideWei(r *Rand, near *big.Int) *big.Int {
+	pow := func(k uint) *big.Int { return new(big.Int).Lsh(big.NewInt(1), k) }
+	small := func() *big.Int {
+		if r.Chance(1, 2) {
+			return big.NewInt(int64(r.Range(-2, 2)))
+		}
+		return big.NewInt(int64(r.Range(-(1 << 20), 1<<20)))
+	}
+	var x *big.Int
+	switch r.Intn(8) {
+	case 0, 1:
+		x = new(big.Int).Mul(big.NewInt(int64(r.Range(1, 200))), big.NewInt(1e18))
+		if r.Chance(1, 2) {
+			x = new(big.Int).Mul(big.NewInt(int64(r.Range(10, 40))), big.NewInt(1e18))
+		}
+	case 2:
+		x = new(big.Int).Add(pow(63), small())
+	case 3:
+		x = new(big.Int).Add(pow(64), small())
+	case 4:
+		x = wei(uint64(r.Intn(1<<16)), r.U64())
+	case 5:
+		x = new(big.Int).Add(pow(uint(r.Range(53, 80))), small())
+	case 6:
+		// at or above 2^64 with low 64 bits near 0 or near 2^64
+		x = wei(uint64(r.Range(1, 40)), uint64(r.Intn(1<<30)))
+		if r.Chance(1, 2) {
+			x = wei(uint64(r.Range(1, 40)), ^uint64(r.Intn(1<<30)))
+		}
+	default:
+		if near != nil {
+			x = new(big.Int).Add(near, small())
+		} else {
+			x = new(big.Int).Add(pow(64), small())
+		}
+	}
+	if x.Sign() < 0 {
+		x.SetInt64(0)
+	}
+	return x
+}
+
+// setWide gives a proposal the total value x, split between consensus and execution value.
+func setWide(r *Rand, v *Value, x *big.Int) {
+	lo64 := func(y *big.Int) (uint64, uint64) {
+		hi := new(big.Int).Rsh(y, 64)
+		lo := new(big.Int).And(y, new(big.Int).SetUint64(^uint64(0)))
+		return hi.Uint64(), lo.Uint64()
+	}
+	var cv, ev *big.Int
+	switch r.Intn(4) {
+	case 0: // two halves: each may fit 64 bits although the sum does not
+		cv = new(big.Int).Rsh(x, 1)
+		ev = new(big.Int).Sub(x, cv)
+	case 1: // all in the consensus value
+		cv, ev = x, big.NewInt(int64(r.Intn(3)))
+	default: // all in the execution value (a large MEV block), an ordinary consensus reward
+		cv, ev = big.NewInt(int64(r.Intn(1<<26))), x
+		if r.Chance(1, 2) {
+			cv = big.NewInt(0)
+		}
+	}
+	v.CVHi, v.CV = lo64(cv)
+	v.EVHi, v.EV = lo64(ev)
+}
+
+func total(v Value) *big.Int { return new(big.Int).Add(wei(v.CVHi, v.CV), wei(v.EVHi, v.EV)) }
+
 // genForeignSlot: attestation data for another slot than the requested one.
 func genForeignSlot(r *Rand, in *Input, later bool) Value {
 	spe := int64(in.SPE)
@@ -1217,7 +1303,7 @@ func gen(r *Rand) Input {
 	// family: 2-4 calls in a row on ONE service instance (other slots and epochs, or the same slot
 	// again; nodes that were slow, failing or silent in an earlier call; earlier calls that ran
 	// into their timeout; back to back or after a pause)
-	if r.Chance(1, 6) {
+	if r.Chance(1, 6) && !hasTag(&in, "wide-epoch") {
 		var prior []Input
 		for k := r.Range(1, 3); k > 0; k-- {
 			next := one(&in)
@@ -1264,6 +1350,33 @@ func gen1(r *Rand, prev *Input) Input {
 		in.SPE = uint64(r.Range(1, 64))
 	}
 	in.Slot = in.SPE*uint64(r.Range(4, 1<<16)) + uint64(r.Intn(int(in.SPE)))
+	// family: slots and epochs that do not fit 32 bits (the types are 64 bits wide).  1: the slot is
+	// just above 2^32, the slots of the known heads on both sides of it; 2: the epoch is about 2^31,
+	// source+target on both sides of 2^32 (known heads at most 15 slots back, one call per instance:
+	// the float64 score 'source+target+1/(1+distance)' keeps the order of the exact one)
+	wideSlot := 0
+	wideDen := 10
+	switch in.Strategy {
+	case "AttBest", "AttMajority", "RootLatest", "RootMajority": // they compare slots or sum epochs
+		wideDen = 4
+	}
+	if prev == nil && r.Chance(1, wideDen) {
+		wideSlot = r.Range(1, 2)
+		if family(in.Strategy) == "root" {
+			wideSlot = 1
+		}
+		if wideSlot == 1 {
+			in.SPE = 32 // epoch about 2^27: source+target < 2^29, where 1/(1+distance) still separates float64 scores
+			in.Slot = 1<<32 + uint64(r.Intn(4))
+			if r.Chance(1, 3) {
+				in.Slot = 1<<32 + uint64(r.Intn(int(2*in.SPE)))
+			}
+		} else {
+			// source+target crosses 2^32 between source = epoch-3 and epoch-1 when the epoch is 2^31+1
+			in.SPE = 32
+			in.Slot = uint64(32*(int64(1)<<31+int64([]int{1, 1, 1, 0, 2, -1}[r.Intn(6)]))) + uint64(r.Intn(32))
+		}
+	}
 	in.Trace = r.Chance(1, 4)
 	n := r.Range(1, 6)
 	if r.Chance(1, 2) {
@@ -1285,6 +1398,9 @@ func gen1(r *Rand, prev *Input) Input {
 		d := uint64(r.Intn(6))
 		if r.Chance(1, 5) {
 			d = uint64(r.Intn(1025))
+			if wideSlot == 2 {
+				d = uint64(r.Intn(16))
+			}
 		}
 		if d > in.Slot {
 			d = in.Slot
@@ -1298,6 +1414,9 @@ func gen1(r *Rand, prev *Input) Input {
 		nvals = r.Range(1, 3)
 	}
 	tags := map[string]bool{}
+	if wideSlot > 0 {
+		tags[[]string{"", "wide-slot", "wide-epoch"}[wideSlot]] = true
+	}
 	for i := 0; i < nvals; i++ {
 		// every family but the bare roots has an irregular kind of content
 		valid := family(in.Strategy) == "root" || !r.Chance(1, 5)
@@ -1315,6 +1434,37 @@ func gen1(r *Rand, prev *Input) Input {
 		}
 		in.Values = vals
 	}
+	// family: block values over the whole legal range (not only what fits 51 bits)
+	wideValues := family(in.Strategy) == "prop" && r.Chance(2, 3)
+	if wideValues {
+		if len(in.Values) < 2 {
+			in.Values = append(in.Values, genValue(r, &in, true))
+		}
+		k := r.Intn(len(in.Values)) // this one at least
+		var near *big.Int
+		for i := range in.Values {
+			if i == k || r.Chance(1, 2) {
+				x := wideWei(r, near)
+				setWide(r, &in.Values[i], x)
+				near = total(in.Values[i])
+			}
+		}
+		// often a pair as in "19 ETH against 1 ETH": a value of 2^64 wei or more whose low 64 bits are
+		// below another value that fits 64 bits
+		if r.Chance(1, 2) {
+			i := r.Intn(len(in.Values))
+			j := (i + 1 + r.Intn(len(in.Values)-1)) % len(in.Values)
+			over := wei(uint64(r.Range(1, 1<<uint(r.Range(1, 16)))), r.U64()>>uint(r.Range(4, 40)))
+			under := new(big.Int).SetUint64(r.U64()>>uint(r.Range(0, 3)) | 1<<60)
+			if r.Chance(1, 2) {
+				over = new(big.Int).Mul(big.NewInt(int64(r.Range(19, 36))), big.NewInt(1e18))
+				under = new(big.Int).Mul(big.NewInt(int64(r.Range(1, 18))), big.NewInt(1e18))
+			}
+			setWide(r, &in.Values[i], over)
+			setWide(r, &in.Values[j], under)
+		}
+		tags["wide-value"] = true
+	}
 	// family: an invalid response that outscores every valid one
 	if hasRules(in.Strategy) && tp == "best" && r.Chance(1, 4) {
 		var v Value
@@ -1327,6 +1477,9 @@ func gen1(r *Rand, prev *Input) Input {
 			v = Value{Nil: true}
 		case "prop":
 			v = Value{Version: uint64(r.Range(3, 5)), Fee: 0, CV: (1 << 21) << 30, EV: 1 << 30}
+			if wideValues {
+				v.EVHi = 1 << 18 // 2^82 wei
+			}
 		}
 		in.Values = append(in.Values, v)
 		tags["invalid-high-scorer"] = true
@@ -1387,7 +1540,11 @@ func gen1(r *Rand, prev *Input) Input {
 	}
 	for i := 0; i < n; i++ {
 		p := Prov{T: pickTime()}
-		switch k := r.Intn(20); {
+		k := r.Intn(20)
+		if wideValues && k < 17 {
+			k = 0 // block values are compared only between answers: more of them
+		}
+		switch {
 		case k < 13:
 			p.Beh, p.Val = "respond", r.Intn(len(in.Values))
 		case k < 16:
@@ -1461,6 +1618,15 @@ func gen1(r *Rand, prev *Input) Input {
 	}
 	sort.Strings(in.Tags)
 	return in
+}
+
+func hasTag(in *Input, tag string) bool {
+	for _, t := range in.Tags {
+		if t == tag {
+			return true
+		}
+	}
+	return false
 }
 
 func abs64(x int64) int64 {
